@@ -249,12 +249,9 @@ func (bwu *BaseWorkUnit) Save() error {
 
 // loadFromFile loads status from an already open file.
 func (sfd *StatusFileData) loadFromFile(file io.Reader) error {
-	jsonBytes, err := io.ReadAll(file)
-	if err != nil {
-		return err
-	}
-
-	return json.Unmarshal(jsonBytes, sfd)
+	// The record is the first JSON value in the file. Anything after it is the tail of a
+	// longer, older record left behind when an update was interrupted before truncating.
+	return json.NewDecoder(file).Decode(sfd)
 }
 
 // Load loads status from a file.
@@ -330,16 +327,22 @@ func (sfd *StatusFileData) UpdateFullStatus(filename string, statusFunc func(*St
 	if err != nil {
 		return err
 	}
-	err = file.Truncate(0)
-	if err != nil {
-		return err
-	}
-	verifPoint("upd.truncated", filename)
+	// Write the new record over the old one first and cut off the remainder afterwards, so
+	// that a process killed in between never leaves an empty (unreadable) status file behind.
 	err = sfd.saveToFile(file)
 	if err != nil {
 		return err
 	}
 	verifPoint("upd.written", filename)
+	size, err = file.Seek(0, 1)
+	if err != nil {
+		return err
+	}
+	err = file.Truncate(size)
+	if err != nil {
+		return err
+	}
+	verifPoint("upd.truncated", filename)
 
 	return nil
 }
